@@ -105,6 +105,43 @@ func (c *Ctx) ownRun() map[string]*simpleVerdict {
 			note("host-values", "", "")
 		}
 	}
+	// two-step histories: a variant that already holds one host value is set to another; it then reports the
+	// second value's type and payload only (nothing of the first survives, nil included)
+	for _, h1 := range cases {
+		for _, h2 := range cases {
+			m.steps = 0
+			v, out := m.Call(newVariant, h1.val)
+			if out.kind != "ok" {
+				continue
+			}
+			where := "NewVariant(" + h1.name + ") then SetAsObject(" + h2.name + ")"
+			if _, out := call(v, "SetAsObject", h2.val); out.kind != "ok" {
+				if out.kind == "panic" {
+					note("host-values", where+" panics: "+out.why, "")
+				} else {
+					note("host-values", "", where+": "+out.why)
+				}
+				continue
+			}
+			tag := h.typeOf(v)
+			got, o2 := call(v, h2.access)
+			obj, o3 := call(v, "AsObject")
+			switch {
+			case tag != h2.tag:
+				note("host-values", fmt.Sprintf("%s has type %s; the matching type is %s", where, tag, h2.tag), "")
+			case o2.kind == "panic":
+				note("host-values", fmt.Sprintf("%s: %s() panics: %s", where, h2.access, o2.why), "")
+			case o2.kind != "ok" || o3.kind != "ok":
+				note("host-values", "", where+": "+o2.why+o3.why)
+			case mRender(got) != h2.want:
+				note("host-values", fmt.Sprintf("%s: %s() returns %s; the value given last was %s", where, h2.access, mRender(got), h2.want), "")
+			case mRender(obj) != h2.want:
+				note("host-values", fmt.Sprintf("%s: AsObject() returns %s; the value given last was %s", where, mRender(obj), h2.want), "")
+			default:
+				note("host-values", "", "")
+			}
+		}
+	}
 	// ---- (b) lists --------------------------------------------------------------------------------
 	mkInt := func(n int64) mv { return h.variant("Integer", n) }
 	elems := func(v mv) string {
@@ -295,6 +332,23 @@ func (c *Ctx) ownRun() map[string]*simpleVerdict {
 					continue
 				}
 			}
+			// assigning a variant to itself changes nothing
+			{
+				state := func() string {
+					if h.typeOf(orig) == "Array" {
+						return "Array:" + elems(orig)
+					}
+					return h.typeOf(orig) + ":" + h.payloadOf(orig)
+				}
+				b4 := state()
+				if _, out := call(orig, "Assign", orig); out.kind == "panic" {
+					note("clones", fmt.Sprintf("assigning %s to itself panics: %s", n, out.why), "")
+					continue
+				} else if after := state(); out.kind == "ok" && after != b4 {
+					note("clones", fmt.Sprintf("assigning %s to itself changes it from %s to %s", n, b4, after), "")
+					continue
+				}
+			}
 			// a second clone is not affected by what happened to the first
 			cl2, _ := call(orig, "Clone")
 			if e, _ := boolOf(call(cl2, "Equals", orig)); e != want && e != "sym" {
@@ -343,7 +397,7 @@ func (c *Ctx) ownRun() map[string]*simpleVerdict {
 
 func init() {
 	register(&Rule{ID: "OWN.model", Floor: 4,
-		Doc: "variants evaluated abstractly through NewVariant / VariantFrom* / SetAs* / Assign / Clone / Equals / SetByIndex against the value model: 16 host values of every supported Go type give the matching type and come back through the accessor; lists given through six entry points are copied in and grow with nulls; clones of 16 kinds of variants equal their original (NaN excepted) and are independent; equality over all ordered pairs is symmetric, reflexive on equal values and never panics (lists, maps, slices, nil included)",
+		Doc: "variants evaluated abstractly through NewVariant / VariantFrom* / SetAs* / Assign / Clone / Equals / SetByIndex against the value model: 16 host values of every supported Go type give the matching type and come back through the accessor, also when set on a variant that already holds any of the others; assigning a variant to itself changes nothing; lists given through six entry points are copied in and grow with nulls; clones of 16 kinds of variants equal their original (NaN excepted) and are independent; equality over all ordered pairs is symmetric, reflexive on equal values and never panics (lists, maps, slices, nil included)",
 		Run: func(c *Ctx) []*Obligation {
 			o := newObl("OWN.model")
 			res := c.ownRun()
